@@ -315,6 +315,47 @@ func checkAugCase(res *Result, ac *augCase, dir string, idx int, seed int64, rea
 			return
 		}
 	}
+	// C12 with source analysis on: a bucket never presents a typed rendering that only some of
+	// its members have. The second goroutine differs in one word (inside the aggregate of a
+	// multi-word parameter when there is one).
+	{
+		ps2 := append([]augParam{}, ps...)
+		k := 0
+		for i, p := range ps2 {
+			if len(p.words) > 1 {
+				k = i
+				break
+			}
+		}
+		w2 := append([]uint64{}, ps2[k].words...)
+		w2[len(w2)-1] += 3
+		q := ps2[k]
+		q.words = w2
+		ps2[k] = q
+		dump2 := fmt.Sprintf("goroutine 1 [running]:\n%s(%s)\n\t%s:%d +0x1d\n\ngoroutine 2 [running]:\n%s(%s)\n\t%s:%d +0x1d\n", fn, words, file, pl, fn, printWords(ps2, recv), file, pl)
+		s2, _ := scanWith(dump2, &stack.Opts{LocalGOROOT: runtime.GOROOT(), GuessPaths: true, AnalyzeSources: true})
+		if s2 != nil && len(s2.Goroutines) == 2 {
+			for _, lv := range []stack.Similarity{stack.AnyPointer, stack.AnyValue} {
+				a := s2.Aggregate(lv)
+				for _, b := range a.Buckets {
+					if len(b.IDs) != 2 || len(b.Stack.Calls) == 0 {
+						continue
+					}
+					shown := b.Stack.Calls[0].Args.Processed
+					if len(shown) == 0 {
+						continue
+					}
+					for _, g := range s2.Goroutines {
+						if !reflect.DeepEqual(g.Stack.Calls[0].Args.Processed, shown) {
+							res.violation(Finding{Property: "C12", Aspect: "processed", What: fmt.Sprintf("augment case %d: the bucket presents the typed arguments %v as common, but goroutine %d has %v", idx, shown, g.ID, g.Stack.Calls[0].Args.Processed),
+								Case: cs, Input: []byte(dump2), Expected: g.Stack.Calls[0].Args.Processed, Observed: shown})
+							break
+						}
+					}
+				}
+			}
+		}
+	}
 	// mismatching sources: never a crash, a changed value or a changed frame
 	base, _ := scanWith(dump, &stack.Opts{LocalGOROOT: runtime.GOROOT(), GuessPaths: true})
 	for m := 0; m < 6; m++ {
